@@ -62,3 +62,9 @@ claim("C19",
   "Trusted: go/types, guard-dominance engine. The parser's guarantee that SELECT has at least one source is checked structurally (parseSelectStatement stores parseSources unconditionally) and otherwise assumed. Not covered: privileges of statement kinds the property does not constrain (e.g. which non-admin privilege SHOW commands use).",
   "static analysis: return-path enumeration over the type-checked AST with guard dominance; sealed-switch exhaustiveness",
   "DESIGN.md 4/C19")
+
+claim("C11",
+  "The decision tables of the rewrite are extracted by constant propagation: matchRegex can succeed only for the five operators with finite languages (every regexp/syntax operator is tried); it rejects FoldCase itself, so nested (?i) is rejected at every node; matchExactRegex proceeds only for OpBeginText...OpEndText over every anchor combination tried; every allocation for a product or class expansion and every appended alternation list is dominated by the > 100 test; the rewriter touches only =~/!~, maps them to =/OR and !=/AND and parenthesises a multi-literal result; nothing reachable keeps state in package-level memory. Equality of the two languages in general (what Simplify does to nested concatenations, the product construction itself) is NOT decided - that needs language comparison.",
+  "Trusted: go/ssa, SCCP evaluator, the shape contracts of regexp/syntax nodes (Sub arity, Rune pairs). Not covered: that the product/expansion loops enumerate exactly the language; literal rune conversion.",
+  "static analysis: SCCP table extraction over regexp/syntax operators + dominance of the cap test + global-effect analysis",
+  "DESIGN.md 4/C11")
